@@ -27,10 +27,11 @@ EXPLANATION = (
     " (R11) each pandera.dtypes.is_<kind> classifier used by the strategy dispatch tests subtyping of the class of that kind; (R12) Schema.strategy()/strategy_component() forward every schema attribute to the strategy builders exactly as declared (unique=self.unique, checks=self.checks, ...). " 
     " (R13) the strategy of a SeriesSchema hands self.index to the generated Series (the schema validates the index component). " 
     " (R14) every field-level builder that receives the checks of a component (series_strategy, index_strategy, multiindex_strategy) applies the fallback filter for vectorized checks without a registered strategy. " 
+    " (R15) for constructors that store both, statistics[k] is the check argument k and never a lossy projection (.pattern of a compiled regex); (R16) the dataframe strategy lets the dataframe-level dtype override the column dtype, as validation does; (R17) a null mask is applied to a field only with its uniqueness taken into account (repeated nulls are duplicates). " 
     "NOT decided: that draws validate (hypothesis search + numpy/pandas dtype conversion)."
 )
 LEVEL_RULE = "one obligation per (check strategy, path) / parameter / fallback site"
-FLOORS = {"R1": 14, "R2": 30, "R3": 14, "R4": 1, "R5": 3, "R6": 2, "R7": 3, "R8": 1, "R9": 1, "R10": 1, "R11": 10, "R12": 15, "R13": 1, "R14": 3, "R15": 4, "R16": 1}
+FLOORS = {"R1": 14, "R2": 30, "R3": 14, "R4": 1, "R5": 3, "R6": 2, "R7": 3, "R8": 1, "R9": 1, "R10": 1, "R11": 10, "R12": 15, "R13": 1, "R14": 3, "R15": 4, "R16": 1, "R17": 4}
 
 PD = "pandera/backends/pandas/builtin_checks.py"
 ST = "pandera/strategies/pandas_strategies.py"
@@ -745,7 +746,38 @@ def r16_dataframe_dtype_wins(ctx):
         raise AnalysisError("dataframe_strategy: no choice between column dtype and dataframe dtype found")
 
 
+def r17_null_masks_respect_unique(ctx):
+    """The generators build unique values first and then overwrite a random subset of positions with nulls
+    (null_field_masks / null_dataframe_masks).  Validation counts repeated nulls as duplicates, so wherever a null mask is
+    applied the uniqueness of the field has to be taken into account (no mask, or a mask that knows about `unique`):
+    otherwise SeriesSchema(float, unique=True, nullable=True) draws [x, NaN, NaN] and rejects it (28 of 40 draws)."""
+    from ..util import Expander
+    stm = ctx.ix.module(ST)
+    n = 0
+    for f in stm.all_functions:
+        ex = None
+        for c in calls_in(f.node):
+            if callee_last(c) not in ("null_field_masks", "null_dataframe_masks"):
+                continue
+            n += 1
+            ex = ex or Expander(f.node)
+            from ..cfg import cfg_of
+            from ..util import enclosing_stmt
+            cfg = cfg_of(f.node)
+            node = cfg.node_of(enclosing_stmt(c))
+            guards = " ".join(txt(t) for t, _ in (cfg.guards(node.id) if node is not None else []))
+            argtxt = " ".join(txt(d) for a in list(c.args)[1:] + [k.value for k in c.keywords] for d in ex.closure(a))
+            ok = "unique" in guards or "unique" in argtxt
+            ctx.ob("R17", f, f"{f.short}: `{txt(c)[:50]}` takes the uniqueness of the field into account", ok,
+                   "conditional on / informed of `unique`" if ok else
+                   "nulls are written over values that were generated unique: with unique=True and nullable=True two or more nulls are common, and validation "
+                   "rejects them as duplicates", f.loc(c))
+    if n < 4:
+        raise AnalysisError(f"null mask applications found: {n}")
+
+
 def run(ctx):
+    r17_null_masks_respect_unique(ctx)
     r15_statistics_are_the_check_arguments(ctx)
     r16_dataframe_dtype_wins(ctx)
     r13_series_index_generated(ctx)
